@@ -370,8 +370,11 @@ func runC19(c *Ctx) {
 	okDec := false
 	for _, b := range de.SSA.Blocks {
 		if ret, ok := b.Instrs[len(b.Instrs)-1].(*ssa.Return); ok {
-			if _, m := Match(Call("apierror.New", Call("errors.New", Field("Message", Any())), Field("Status", Any())), c.RetX(ret, 0)); m {
-				okDec = true
+			// (directly, or through a helper shared with the response reader: some value it can return)
+			for _, l := range c.Leaves(c.RetX(ret, 0), ret) {
+				if _, m := Match(Call("apierror.New", Call("errors.New", Field("Message", Any())), Field("Status", Any())), l); m {
+					okDec = true
+				}
 			}
 		}
 	}
@@ -382,8 +385,11 @@ func runC19(c *Ctx) {
 		for _, b := range em.SSA.Blocks {
 			if ret, isRet := b.Instrs[len(b.Instrs)-1].(*ssa.Return); isRet {
 				if _, g := c.GuardedB(b, EqNil(Field("err", Any())), true); g {
-					if x := c.RetX(ret, 0); x.Op == "call" && nameMatches(x.Name, "fmt.Sprintf") {
-						ok = true
+					for _, x := range c.Leaves(c.RetX(ret, 0), ret) {
+						x = strip(x)
+						if x != nil && x.Op == "call" && (nameMatches(x.Name, "fmt.Sprintf") || nameMatches(x.Name, "strconv.Itoa") || nameMatches(x.Name, "strconv.FormatInt")) {
+							ok = true
+						}
 					}
 				}
 			}
